@@ -41,10 +41,26 @@ theorem C11_step_failed_noop (env : Env) (a : Args) (fs : Fs) (p : Path) (h : Fa
     (step env a fs p).1 = fs :=
   step_fail env a fs p h
 
-/-- `Fails` is exactly "the file is not skipped and the header builder raises for the path that
-    would be written". -/
-theorem C11_fails_iff_builder (env : Env) (a : Args) (fs : Fs) (p : Path) :
+/-- A symbolic link at the `.license` position the header has to go to (a dangling one: the
+    others never reach the loop) makes the file fail — and by `C11_step_failed_noop` nothing is
+    written, in particular not through the link. -/
+theorem C11_link_in_the_way_fails (env : Env) (a : Args) (fs : Fs) (p : Path)
+    (hs : useSibling env a p = true) (hl : Fs.isLink fs (licSuffix p) = true) : Fails env a fs p := by
+  simp [Fails, step, guardedNoLink, hs, hl]
+
+/-- When no symbolic link sits at a `.license` position of `p`, `Fails` is exactly "the file is
+    not skipped and the header builder raises for the path that would be written". -/
+theorem C11_fails_iff_builder (env : Env) (a : Args) (fs : Fs) (p : Path)
+    (hnl : ∀ t ∈ writeSet p, Fs.isLink fs t = false) :
     Fails env a fs p ↔ ∃ t txt e, attempt env a fs p = some (t, txt) ∧ env.build t txt = .error e := by
+  have hcreate : ∀ (g : Fs) (t x : Path), Fs.isLink g x = false →
+      Fs.isLink (if (g t).isNone = true then Fs.create g t else g) x = false := by
+    intro g t x hx
+    split
+    · by_cases hxt : x = t
+      · subst hxt; simp [Fs.isLink, Fs.create]
+      · simpa [Fs.isLink, Fs.create, Fs.set_other _ _ hxt] using hx
+    · exact hx
   have hw : ∀ (t : Path) (g : Fs), (writeHeader env a t g).2 = true ↔
       ∃ txt e, (if (a.skipExisting && env.hasInfo (Fs.readText g t)) = true then none
         else some (t, Fs.readText g t)) = some (t, txt) ∧ env.build t txt = .error e := by
@@ -68,7 +84,7 @@ theorem C11_fails_iff_builder (env : Env) (a : Args) (fs : Fs) (p : Path) :
     intro t g
     simp only [guarded]
     rw [hw, hread]
-  have ha : ∀ (t1 : Path) (g : Fs), (addHeader env a t1 g).2 = true ↔
+  have ha : ∀ (t1 : Path) (g : Fs), Fs.isLink g (licSuffix t1) = false → ((addHeader env a t1 g).2 = true ↔
       ∃ t txt e,
         (if ((effStyle env a t1).isNone && a.skipUnrec) = true then none
          else
@@ -77,14 +93,15 @@ theorem C11_fails_iff_builder (env : Env) (a : Args) (fs : Fs) (p : Path) :
           then none
           else some ((if ((effStyle env a t1).isNone && a.fallbackDot) = true then licSuffix t1 else t1),
             Fs.readText g (if ((effStyle env a t1).isNone && a.fallbackDot) = true then licSuffix t1 else t1)))
-          = some (t, txt) ∧ env.build t txt = .error e := by
-    intro t1 g
+          = some (t, txt) ∧ env.build t txt = .error e) := by
+    intro t1 g hlk
     unfold addHeader
     simp only
     split
     · simp
     · split
-      · rw [hg]
+      · simp only [guardedNoLink, hlk, Bool.false_eq_true, if_false]
+        rw [hg]
         constructor
         · rintro ⟨txt, e, h1, h2⟩; exact ⟨_, txt, e, h1, h2⟩
         · rintro ⟨t, txt, e, h1, h2⟩
@@ -102,11 +119,13 @@ theorem C11_fails_iff_builder (env : Env) (a : Args) (fs : Fs) (p : Path) :
           · simp only [Option.some.injEq, Prod.mk.injEq] at h1
             obtain ⟨rfl, rfl⟩ := h1
             exact ⟨_, e, by simp [*], h2⟩
+  have hnl1 : Fs.isLink fs (licSuffix p) = false := hnl _ (by simp [writeSet])
+  have hnl2 : Fs.isLink fs (licSuffix (licSuffix p)) = false := hnl _ (by simp [writeSet])
   unfold Fails step attempt
   split
   · rename_i hs
-    simp only [guarded]
-    rw [ha]
+    simp only [guardedNoLink, hnl1, Bool.false_eq_true, if_false, guarded]
+    rw [ha _ _ (hcreate fs _ _ hnl2)]
     have hr : ∀ t, t = licSuffix p ∨ t = licSuffix (licSuffix p) →
         Fs.readText (if (fs (licSuffix p)).isNone = true then Fs.create fs (licSuffix p) else fs) t
           = Fs.readText fs t := by
@@ -119,7 +138,7 @@ theorem C11_fails_iff_builder (env : Env) (a : Args) (fs : Fs) (p : Path) :
         · subst htl; simp [Fs.readText, Fs.create, hfs]
         · simp [Fs.readText, Fs.create, Fs.set_other _ _ htl]
     rw [hr _ (by split <;> simp)]
-  · rw [ha]
+  · rw [ha _ _ hnl1]
 
 /-- **Failed ⇒ unchanged.**  If the header cannot be produced for `p`, then after the whole
     command `p` and `p.license` are exactly what they were; in particular no sibling was
@@ -267,6 +286,15 @@ example : (annotate exEnv (exArgs exPaths) exFs).1 "c.c".toList = some (.file "H
 example : usageOf (preflight exEnv { exArgs exPaths with single := true, multi := true } exFs) = some .mutex := by decide
 example : usageOf (preflight exEnv (exArgs ["a.c".toList, "nosuch.c".toList]) exFs) = some .noSuchPath := by decide
 example : exPaths.Perm ["c.c".toList, "d.png".toList, "b.c".toList, "a.c".toList] := by decide
+
+/-- a binary file whose `.license` position holds a dangling link pointing outside the project -/
+def exFsLink : Fs := Fs.ofList [("e.png".toList, .file "binary".toList), ("e.png.license".toList, .link "../out/new.txt".toList)]
+example : useSibling exEnv (exArgs ["e.png".toList]) "e.png".toList = true ∧
+    Fs.isLink exFsLink (licSuffix "e.png".toList) = true := by decide
+example : (preflight exEnv (exArgs ["e.png".toList]) exFsLink).toOption = some ["e.png".toList] := by decide
+example : (annotate exEnv (exArgs ["e.png".toList]) exFsLink).2 = 1 := by decide
+example : (annotate exEnv (exArgs ["e.png".toList]) exFsLink).1 "../out/new.txt".toList = none := by decide
+example : ∀ t ∈ writeSet "a.c".toList, Fs.isLink exFs t = false := by decide
 
 end Examples
 
